@@ -16,6 +16,7 @@ import (
 	"pgregory.net/rapid"
 
 	"verifharness/icbor"
+	"verifharness/icose"
 )
 
 var c16DynNames = []string{
@@ -24,7 +25,17 @@ var c16DynNames = []string{
 	"http://example.com/verif/dyn/6", "http://example.com/verif/dyn/7",
 }
 
-var c16Universe = append([]string{P1Name, P2Name, "", "http://example.com/verif/never-registered"}, c16DynNames...)
+// names that are NEVER registered but look like registrable ones (other
+// letter case in path / host / scheme, a trailing slash, a prefix, a longer
+// name, an escape, surrounding blanks): registering the name they resemble
+// changes nothing for them
+var c16LookAlikes = []string{
+	"http://example.com/verif/DYN/0", "http://example.com/Verif/dyn/1", "HTTP://example.com/verif/dyn/2", "http://EXAMPLE.COM/verif/dyn/3",
+	"http://example.com/verif/dyn/4/", "http://example.com/verif/dyn/", "http://example.com/verif/dyn/55", "http://example.com/verif/dyn/%36",
+	" http://example.com/verif/dyn/7", "http://example.com:80/verif/dyn/0", "http://example.com/verif/dyn/1#", "PSA_IOT_profile_1", "http://ARM.com/psa/2.0.0", "http://arm.com/PSA/2.0.0",
+}
+
+var c16Universe = append(append([]string{P1Name, P2Name, "", "http://example.com/verif/never-registered"}, c16DynNames...), c16LookAlikes...)
 
 // the fixed probe tokens: both bodies plus every profile key/member set to
 // the probed name, so that any registered shape can decode them.
@@ -178,6 +189,7 @@ type c16Machine struct {
 	trace                               []string
 	failedReg, mutated, readAfterMutate bool
 	nested, faulty                      bool
+	ev                                  *psatoken.Evidence // re-used for every COSE decode of the history
 }
 
 func (mc *c16Machine) log(f string, a ...any) { mc.trace = append(mc.trace, fmt.Sprintf(f, a...)) }
@@ -562,13 +574,31 @@ func c16Run(t *rapid.T, st *Stats) {
 			}
 		case "decode":
 			name := rapid.SampledFrom(c16Universe).Draw(t, "name")
-			format := rapid.SampledFrom([]string{"cbor", "json"}).Draw(t, "format")
+			format := rapid.SampledFrom([]string{"cbor", "json", "cbor", "json", "cose"}).Draw(t, "format")
 			mc.log("Decode(%s, %q) x32", format, name)
 			var first string
 			for r := 0; r < 32; r++ {
 				var c psatoken.IClaims
 				var err error
-				if format == "cbor" {
+				if format == "cose" {
+					// through ONE Evidence object that the history keeps
+					// re-using (the usual decode loop), the holder keeping the
+					// claims of the tokens decoded before
+					if r > 1 && r < 31 {
+						continue
+					}
+					if mc.ev == nil {
+						mc.ev = &psatoken.Evidence{}
+					}
+					kp := keyFor(icose.EdDSA, 0)
+					tok, serr := icose.SignedToken(kp.Alg, kp.Priv, c16CBORToken(name))
+					if serr != nil {
+						t.Fatalf("VERIF-INFRA: %v", serr)
+					}
+					if err = mc.ev.UnmarshalCOSE(tok); err == nil {
+						c = mc.ev.Claims
+					}
+				} else if format == "cbor" {
 					c, err = psatoken.DecodeClaimsFromCBOR(c16CBORToken(name))
 				} else {
 					c, err = psatoken.DecodeClaimsFromJSON(c16JSONDoc(name))
@@ -581,6 +611,7 @@ func c16Run(t *rapid.T, st *Stats) {
 				}
 				if err == nil && (r == 0 || r == 31) {
 					mc.addInstance(t, c, name, "Decode-"+format, refs)
+					mc.checkInstances(t)
 				}
 			}
 			want, _ := mc.expectProbe(name)
